@@ -7,8 +7,8 @@ import (
 	dbm "github.com/cosmos/cosmos-db"
 	cryptotypes "github.com/cosmos/cosmos-sdk/crypto/types"
 	sdk "github.com/cosmos/cosmos-sdk/types"
-	bitcointypes "github.com/goatnetwork/goat/x/bitcoin/types"
 	"github.com/ethereum/go-ethereum/core/types/goattypes"
+	bitcointypes "github.com/goatnetwork/goat/x/bitcoin/types"
 	"math/big"
 )
 
